@@ -547,6 +547,11 @@ fn is_retryable_error(err: &RepeError) -> bool {
                 | std::io::ErrorKind::ConnectionReset
                 | std::io::ErrorKind::ConnectionAborted
                 | std::io::ErrorKind::NotConnected
+                // A cached connection that the node closed while it sat idle (or
+                // whose reader already failed) rejects its next write with EPIPE.
+                // Without a retry the dead client stays cached and every later
+                // call fails the same way: the node never reconnects.
+                | std::io::ErrorKind::BrokenPipe
                 | std::io::ErrorKind::UnexpectedEof
                 | std::io::ErrorKind::WouldBlock
                 | std::io::ErrorKind::Interrupted
